@@ -8,7 +8,7 @@ use quandary::db::zone::{
 };
 use quandary::db::{HashMapTreeZone, Zone};
 use quandary::name::Name;
-use quandary::rr::{Rdata, RdataSet, Ttl, Type};
+use quandary::rr::{Rdata, RdataSet, RdataSetOwned, Ttl, Type};
 use qv_harness::*;
 use std::borrow::Cow;
 
@@ -248,6 +248,16 @@ fn main() {
                     l.dedup();
                     if l.is_empty() { "ok -".to_string() } else { format!("ok {}", l.join(",")) }
                 }
+            }
+        }
+        "B" => {
+            let class = Class::from(f[1].parse::<u16>().unwrap());
+            let ty = Type::from(f[2].parse::<u16>().unwrap());
+            let rds: Vec<Vec<u8>> = f[3].split(',').map(unhex).collect();
+            let refs: Vec<&Rdata> = rds.iter().map(|r| <&Rdata>::try_from(&r[..]).unwrap()).collect();
+            match RdataSetOwned::from_iter(class, ty, refs.iter().copied()) {
+                None => "ok none".to_string(),
+                Some(s) => format!("ok {}", show_rdatas(&s)),
             }
         }
         _ => panic!("unknown op"),
